@@ -3543,7 +3543,14 @@ class FuncRound(ValueFunc):
         if args.hasArg("digits"):
             # a double has no digit beyond these positions
             digits = max(-400, min(400, args.getInt("digits").value))
-        return ValueDecimal(round(x.asDecimal().value, digits))
+        try:
+            return ValueDecimal(round(x.asDecimal().value, digits))
+        except OverflowError:
+            raise CklRuntimeError(
+                ValueString("ERROR"),
+                f"Cannot round {x} to {digits} digits",
+                pos,
+            )
 
 
 class FuncRun(ValueFunc):
